@@ -5,7 +5,7 @@ HERE = os.path.dirname(os.path.dirname(os.path.abspath(__file__)))
 props = [json.loads(l)['id'] for l in open(os.path.join(HERE, 'properties.jsonl'))]
 
 ENGINES = {
- "sched": dict(path="spec/Sched.tla spec/MCSched.tla spec/SchedTrace.tla spec/SchedObs.tla lib/sched_engine.py harness/src/sched.rs harness/src/ctl.rs",
+ "sched": dict(path="spec/Sched.tla spec/MCSched.tla spec/SchedTrace.tla spec/SchedObs.tla spec/apalache/DepMgr.tla lib/sched_engine.py harness/src/sched.rs harness/src/ctl.rs",
                props=["C02", "C03", "C04", "C05"],
                kind="TLC model checking of the coordinator (all digraphs / input lists / interleavings in bounds) + exhaustive gate-level schedule enumeration of the real coordinator through the verif hooks + TLC trace validation of the recorded hook traces"),
  "pure": dict(path="spec/Grammar.tla spec/MCGrammar.tla spec/GrammarTrace.tla spec/TagInject.tla spec/MCTagInject.tla spec/TagTrace.tla lib/pure_engine.py harness/src/pure.rs",
